@@ -18,7 +18,9 @@ STEP_BUDGET = 3_000_000
 RULE = ("inputs: (a) 1-3 token/character/line mutations (delete, duplicate, swap, replace by punctuation or keyword; char "
         "overwrite/insert/delete; line delete/duplicate/move/join) of generated valid programs in canonical and random "
         "free-form layout; (b) unstructured random lines over the Fortran character set mixed with keyword soup; "
-        "and fixed-form rendering; (c) both standards x ignore_comments x process_directives, format auto-detected or stated; (d) byte level: "
+        "and fixed-form rendering; (a') systematically, for two statements of a small valid program: every prefix "
+        "truncation at a token boundary, every single-token deletion, every single-token duplication and every repetition of "
+        "a separator with its right neighbour (lo:hi -> lo:hi:hi), the two statements picked by kind; (c) both standards x ignore_comments x process_directives, format auto-detected or stated; (d) byte level: "
         "valid programs with random bytes 0x80-0xFF, truncated UTF-8 sequences and NULs spliced in, read through "
         "FortranFileReader. Oracle at the API boundary: create(std)(reader) then str(tree) either returns or raises "
         "FortranSyntaxError; anything else (NoMatchError, InternalError, AssertionError, IndexError, SystemExit, ...) is "
@@ -43,7 +45,29 @@ def base_program(seed, std):
 
 
 def make_payload(rng, idx, tier):
+    if idx % 4 == 3:
+        # every truncation / single-token deletion / duplication of two statements of a small valid program
+        return {"mode": "systematic", "seed": rng.getrandbits(48), "nstmts": 2}
     return {"mode": "batch", "seed": rng.getrandbits(48), "n": 40}
+
+
+_LAST_READER_ERROR = [None]
+
+
+def _watch_reader_error():
+    """M-ERR: remember the message handed to reader.error() (the call that ends in sys.exit), so that two different
+    reasons for terminating the process in the same function are two mechanisms"""
+    cls = fp.FortranStringReader.__mro__[1]
+    if getattr(cls.error, "_vf_wrapped", False):
+        return
+    orig = cls.error
+
+    def error(self, message, item=None):
+        _LAST_READER_ERROR[0] = str(message)
+        return orig(self, message, item)
+
+    error._vf_wrapped = True
+    cls.error = error
 
 
 def classify(exc):
@@ -51,10 +75,11 @@ def classify(exc):
     fr = fp.fparser_frames(exc.__traceback__)
     tname = type(exc).__name__
     if isinstance(exc, SystemExit):
-        # the caller of reader.error()
+        # the caller of reader.error() and what it complained about (digits and quoted text folded)
         callers = [f for f in fr if not f[0].endswith(".error")]
         where = callers[-1][0] if callers else "?"
-        return "SystemExit@%s" % where
+        msg = re.sub(r"'[^']*'|\"[^\"]*\"|\d+|<[^>]*>|\bis \S+ but got \S+", "_", _LAST_READER_ERROR[0] or "?")
+        return "SystemExit@%s:%s" % (where, " ".join(msg.split()[:5]))
     where = fr[-1][0] if fr else "?"
     return "%s@%s" % (tname, where)
 
@@ -66,6 +91,8 @@ def run_one(text, std, opts, how, raw=None):
     if nm is not None:
         nm.reset()
     tmpdir = None
+    _watch_reader_error()
+    _LAST_READER_ERROR[0] = None
     try:
         try:
             parser = fp.create(std)
@@ -126,6 +153,59 @@ def bytes_mutant(src, rng):
     return bytes(raw)
 
 
+def check_systematic(payload):
+    r = random.Random(payload["seed"])
+    std = r.choice(["f2003", "f2008"])
+    # a pool of small valid programs; the statements to enumerate are drawn uniformly over the statement KINDS present
+    # in the pool (not over statements), so that rare kinds get the same share as assignments
+    pool = [generate(r.getrandbits(40), std, size=0.45, max_units=1) for _ in range(6)]
+    by_kind = {}
+    for pi, Q in enumerate(pool):
+        for si, st in enumerate(Q.stmts):
+            by_kind.setdefault(st.kind, []).append((pi, si))
+    picks = [r.choice(by_kind[k]) for k in r.sample(sorted(by_kind), min(payload["nstmts"], len(by_kind)))]
+    viols, digs = [], []
+    mons = {"inputs_run": 0, "trees": 0, "syntax_errors": 0, "budget_exempt": 0, "systematic_inputs": 0}
+    tally = {"outcome": [], "mode": [], "systematic_class": [], "systematic_kind": []}
+    seen = set()
+    sample = None
+    for pi, i in picks:
+        lines = pool[pi].canonical().split("\n")
+        for cls, variant in mutate.systematic_variants(lines[i]):
+            text = "\n".join(lines[:i] + [variant] + lines[i + 1:])
+            opts = {"ignore_comments": False} if r.random() < 0.3 else {}
+            out, info = run_one(text, std, opts, "free")
+            mons["inputs_run"] += 1
+            mons["systematic_inputs"] += 1
+            tally["outcome"].append(out)
+            tally["mode"].append("systematic")
+            tally["systematic_class"].append(cls)
+            tally["systematic_kind"].append(pool[pi].stmts[i].kind)
+            single = {"mode": "single", "text": text, "std": std, "opts": opts, "how": "free", "raw_hex": None}
+            if out == "tree":
+                mons["trees"] += 1
+            elif out == "syntaxerror":
+                mons["syntax_errors"] += 1
+            elif out == "budget":
+                if len(_LABEL_DO.findall(text)) > 4:
+                    mons["budget_exempt"] += 1
+                elif "step-budget-exceeded" not in seen:
+                    seen.add("step-budget-exceeded")
+                    viols.append(viol("step-budget-exceeded", "more than %d rule-constructor calls" % STEP_BUDGET, payload=single))
+                continue
+            elif out == "violation":
+                key, det = info
+                if key not in seen:
+                    seen.add(key)
+                    viols.append(viol(key, "%s | statement %r changed to %r (%s)" % (det, lines[i].strip(), variant.strip(), cls), payload=single))
+                continue
+            digs.append(digest(text, std, sorted(opts.items()), "free"))
+            if sample is None:
+                sample = {"mode": "systematic", "std": std, "statement": lines[i].strip(), "variant": variant.strip(), "outcome": out}
+    return {"violations": viols, "digests": digs, "monitors": mons, "tally": tally, "evaluations": max(1, mons["inputs_run"]),
+            "sample": sample}
+
+
 def check(payload):
     viols, digs = [], []
     mons = {"inputs_run": 0, "trees": 0, "syntax_errors": 0, "budget_exempt": 0}
@@ -138,6 +218,8 @@ def check(payload):
         elif out == "budget":
             viols.append(viol("step-budget-exceeded", info))
         return {"violations": viols, "digests": [], "monitors": {"inputs_run": 1}, "tally": tally}
+    if payload["mode"] == "systematic":
+        return check_systematic(payload)
     r = random.Random(payload["seed"])
     sample = None
     seen = set()
